@@ -29,7 +29,7 @@ import (
 	"github.com/tigerwill90/fox"
 )
 
-const rule = "cases = requests of 23 shapes (direct, two parameters, catch-all, hostname, ignored trailing slash, redirect, 404, 405, auto OPTIONS, manual Lookup with own writer, Lookup with nil writer, CloneWith, infix catch-alls with and without following parameters, 405/OPTIONS whose probing backtracks between hostname labels) " +
+const rule = "cases = requests of 26 shapes (direct, two parameters, catch-all, hostname, ignored trailing slash, redirect, 404, 405, auto OPTIONS, manual Lookup with own writer, Lookup with nil writer, CloneWith, infix catch-alls with and without following parameters, 405/OPTIONS whose probing backtracks between hostname labels) " +
 	"each with a unique token in every observable field, in random order; every handler/middleware invocation compares all Context getters with its own request; clones re-read later; " +
 	"distinct by token; non-trivial when the previous user of the pooled context was a request of a different shape (sequential mode) or always (concurrent mode)"
 
@@ -153,6 +153,56 @@ func (w *world) handler(kind string) fox.HandlerFunc {
 		c.SetHeader("X-Resp", e.tok)
 		wr.WriteHeader(statusOf(e.tok))
 		_, _ = io.WriteString(wr, e.tok)
+		// the request of the context is replaced (as a middleware that rewrites the request would do): every
+		// request-derived getter follows the new request, route and parameters stay
+		if e.shape == "setrequest" {
+			tok2 := e.tok + "b"
+			e2 := &expect{tok: tok2, shape: e.shape, pattern: e.pattern, params: e.params, scope: e.scope, kind: e.kind}
+			r2 := e.req.Clone(context.WithValue(context.Background(), expKey{}, e2))
+			r2.Header = http.Header{"X-Token": {tok2}}
+			u := *e.req.URL
+			u.RawQuery = "t=" + tok2
+			u.Path = "/d/" + tok2
+			r2.URL = &u
+			r2.Host = "other.test"
+			r2.RemoteAddr = "10.9.9.9:99"
+			e2.req = r2
+			c.SetRequest(r2)
+			verify(c, e2, "after SetRequest")
+			cl2 := c.Clone()
+			verify(cl2, e2, "clone taken after SetRequest")
+			c.SetRequest(e.req)
+			verify(c, e, "after SetRequest back to the original request")
+			for _, p := range e2.problems {
+				e.fail("%s", p)
+			}
+		}
+		// the writer of the context is replaced for a while (as a middleware that wraps the writer would do): Writer(),
+		// and what a Clone reports about the response so far, follow the writer in place
+		if e.shape == "setwriter" {
+			orig := c.Writer()
+			st0, sz0, wr0 := orig.Status(), orig.Size(), orig.Written()
+			own := &ownW{respW: &respW{h: http.Header{"X-Own": {e.tok}}}}
+			own.WriteHeader(statusOf(e.tok) + 100)
+			_, _ = own.Write([]byte("own" + e.tok))
+			c.SetWriter(own)
+			if c.Writer() != fox.ResponseWriter(own) {
+				e.fail("after SetWriter: Writer() is not the writer just set")
+			}
+			verify(c, e, "after SetWriter")
+			cl := c.Clone()
+			verify(cl, e, "clone taken after SetWriter")
+			if cw := cl.Writer(); cw.Status() != own.Status() || cw.Size() != own.Size() || cw.Written() != own.Written() || cw.Header().Get("X-Own") != e.tok {
+				e.fail("clone taken after SetWriter: its writer shows status=%d size=%d written=%t X-Own=%q, the writer in place has %d %d %t %q", cw.Status(), cw.Size(), cw.Written(), cw.Header().Get("X-Own"), own.Status(), own.Size(), own.Written(), e.tok)
+			}
+			c.SetWriter(orig)
+			if c.Writer() != orig {
+				e.fail("after SetWriter(original): Writer() is not the original writer")
+			}
+			if orig.Status() != st0 || orig.Size() != sz0 || orig.Written() != wr0 {
+				e.fail("the original writer changed while another writer was in place: status=%d size=%d written=%t, before %d %d %t", orig.Status(), orig.Size(), orig.Written(), st0, sz0, wr0)
+			}
+		}
 		// CloneWith inside the handler: same route/params, other request and writer
 		if e.shape == "clonewith" {
 			r2 := e.req.Clone(e.req.Context())
@@ -241,7 +291,7 @@ func newWorldWith(run *kit.Run, forward bool) *world {
 	return w
 }
 
-var shapes = []string{"ignored-tsr-static", "infix", "infix2-tsr", "direct", "two", "catchall", "host", "ignored-tsr", "redirect", "404", "405", "options", "options-star", "lookup", "lookup-nil", "clonewith", "static-then-param", "infix-then-params", "405-hostparam", "options-hostparam", "txn-lookup", "txn-lookup-nil", "writetxn-lookup"}
+var shapes = []string{"ignored-tsr-static", "infix", "infix2-tsr", "direct", "two", "catchall", "host", "ignored-tsr", "redirect", "404", "405", "options", "options-star", "lookup", "lookup-nil", "clonewith", "static-then-param", "infix-then-params", "405-hostparam", "options-hostparam", "txn-lookup", "txn-lookup-nil", "writetxn-lookup", "setrequest", "escaped", "setwriter"}
 
 type respW struct {
 	h      http.Header
@@ -300,8 +350,12 @@ func (w *world) issue(n int64, shape string) *expect {
 	method, host, path := "GET", "", ""
 	P := func(k, v string) fox.Param { return fox.Param{Key: k, Value: v} }
 	switch shape {
-	case "direct", "lookup", "lookup-nil", "clonewith", "txn-lookup", "txn-lookup-nil", "writetxn-lookup":
+	case "direct", "lookup", "lookup-nil", "clonewith", "setrequest", "setwriter", "txn-lookup", "txn-lookup-nil", "writetxn-lookup":
 		path, e.pattern, e.params = "/d/"+tok, "/d/{tok}", []fox.Param{P("tok", tok)}
+	case "escaped":
+		// the wire form carries a needless escape: net/url keeps it in RawPath, the router routes on it and hands the raw
+		// segment to the handler, while Path() is the decoded form
+		path, e.pattern, e.params = "/d/"+tok, "/d/{tok}", []fox.Param{P("tok", "%54"+tok[1:])}
 	case "two":
 		path, e.pattern, e.params = "/two/a"+tok+"/"+tok+"/x", "/two/{a}/{tok}/x", []fox.Param{P("a", "a"+tok), P("tok", tok)}
 	case "catchall":
@@ -339,6 +393,9 @@ func (w *world) issue(n int64, shape string) *expect {
 		RemoteAddr: fmt.Sprintf("10.%d.%d.%d:%d", (n>>16)&255, (n>>8)&255, n&255, 1000+n%5000), Proto: "HTTP/1.1", ProtoMajor: 1, ProtoMinor: 1}
 	if shape == "ignored-tsr-static" {
 		req.URL.Path = "/is/static"
+	}
+	if shape == "escaped" {
+		req.URL.RawPath = "/d/%54" + tok[1:]
 	}
 	if shape == "static-then-param" {
 		// the path must still contain the token for the Path() check: use a query-only token and a fixed path
